@@ -114,9 +114,9 @@ type mapModel struct {
 }
 
 type opResult struct {
-	v   int
-	ok  bool
-	n   int
+	v  int
+	ok bool
+	n  int
 }
 
 // applyModel is the sequential specification of the map.
